@@ -63,6 +63,20 @@ class Ctx:
                     raise AnalysisError("cannot fold an element of %s" % what)
         return v
 
+    def registry_table(self):
+        """Folded Registry.serializers: the assignment may sit in Registry.load_serializers or in a function it delegates to."""
+        if "registry" in self._cache:
+            return self._cache["registry"]
+        mod = "prov.serializers"
+        for q, fi in self.p.functions.items():
+            if fi.module == mod and any(isinstance(n, ast.Assign) and any(isinstance(t, ast.Attribute) and t.attr == "serializers" for t in n.targets) for n in walk_function(fi.node)):
+                self.fenv(q)
+        reg = self.f.class_attr(mod + ".Registry", "serializers")
+        if not isinstance(reg, dict) or not reg:
+            raise AnalysisError("cannot fold Registry.serializers")
+        self._cache["registry"] = reg
+        return reg
+
     def prov_ns(self) -> NS:
         v = self.const(C, "PROV")
         if not isinstance(v, NS):
@@ -148,6 +162,32 @@ class Ctx:
                     if cand and cand not in out and self.p.functions[cand].module == fi.module:
                         out.append(cand)
                         nxt.append(cand)
+                # functions that are only *referenced* (handler tables): by name, or through a folded module-level table
+                for n in walk_function(fi.node):
+                    if isinstance(n, ast.Name) and isinstance(n.ctx, ast.Load) and n.id not in local_names(fi.node):
+                        r = self.p.resolve_name(fi.module, n.id)
+                        refs = []
+                        if r and r[0] == "func":
+                            refs.append(r[1])
+                        elif r and r[0] == "var":
+                            try:
+                                v = self.f.module_env(r[1]).get(r[2])
+                            except AnalysisError:
+                                v = None
+                            refs += list(_funcrefs_in(v))
+                        for cand in refs:
+                            if cand in self.p.functions and cand not in out and self.p.functions[cand].module == fi.module:
+                                out.append(cand)
+                                nxt.append(cand)
+                # local handler tables: {key: func, ...} literals
+                for n in walk_function(fi.node):
+                    if isinstance(n, (ast.Dict, ast.Tuple, ast.List)):
+                        for e in (n.values if isinstance(n, ast.Dict) else n.elts):
+                            if isinstance(e, ast.Name):
+                                r = self.p.resolve_name(fi.module, e.id)
+                                if r and r[0] == "func" and r[1] not in out and self.p.functions[r[1]].module == fi.module:
+                                    out.append(r[1])
+                                    nxt.append(r[1])
             frontier = nxt
         self._cache[k] = out
         return out
@@ -178,6 +218,21 @@ class Ctx:
     def loc(self, qual_or_mod: str, node) -> str:
         u = self.p.unit_of(qual_or_mod)
         return "%s:%d" % (u.relpath, getattr(node, "lineno", 0))
+
+
+def _funcrefs_in(v, depth=0):
+    from .fold import FuncRef as _FR
+
+    if depth > 3:
+        return
+    if isinstance(v, _FR):
+        yield v.qual
+    elif isinstance(v, dict):
+        for x in list(v.keys()) + list(v.values()):
+            yield from _funcrefs_in(x, depth + 1)
+    elif isinstance(v, (list, tuple, set, frozenset)):
+        for x in v:
+            yield from _funcrefs_in(x, depth + 1)
 
 
 # --------------------------------------------------------------------------------------------
